@@ -71,6 +71,27 @@ def gen_case(seed, tier):
         prog.append(op)
         if op['op'] != 'advance' and rng.random() < 0.5:
             prog.append({'op': 'advance', 'dt': rng.choice((0.001, 0.01, 1))})
+    if rng.random() < 0.3:
+        # a cache filled to its limit largely by big items that have expired: the first culling write frees far more than
+        # it adds, so nothing live may be evicted by that write
+        limit = settings['size_limit']
+        n_exp = rng.randint(3, 6)
+        # small cull budget and small old items: each big write evicts less than it adds, so the cache sits above its limit
+        settings['cull_limit'] = n_exp + rng.choice((1, 2))
+        settings['eviction_policy'] = rng.choice(('least-recently-stored', 'least-recently-used'))
+        pre = [{'op': 'set', 'k': 9000 + j, 'v': {'big': ['bytes', 20000, 'e%d' % j]}, 'expire': 1} for j in range(n_exp)]
+        live = []
+        total = 40000      # database pages count towards volume()
+        j = 0
+        while total < limit - 5000 and j < 400:
+            sz = rng.choice((600, 1200, 2000))
+            live.append({'op': 'set', 'k': 9500 + j, 'v': {'big': ['bytes', sz, 'l%d' % j]}})
+            live.append({'op': 'advance', 'dt': 0.001})
+            total += sz
+            j += 1
+        block = live + pre + [{'op': 'advance', 'dt': 5}]
+        block += [{'op': 'set', 'k': 9900 + j2, 'v': {'big': ['bytes', rng.choice((600, 2000)), 'w%d' % j2]}} for j2 in range(3)]
+        prog = block + prog
     cfg = {'settings': settings, 'profile': 'evict', 'fanout': fanout, 'shards': rng.choice((2, 3, 8))}
     return {'seed': seed, 'cfg': cfg, 'prog': prog}
 
@@ -87,7 +108,8 @@ def at_limit(cache, model, op):
     if op['op'] not in ('set', 'setitem', 'add', 'incr', 'decr', 'push'):
         return None
     vol = cache.volume()
-    return vol + value_size_upper(op) + SLACK_PAGES * cache._page_size >= model.size_limit
+    return {'vol': vol, 'upper': value_size_upper(op), 'slack': SLACK_PAGES * cache._page_size,
+            'maybe': vol + value_size_upper(op) + SLACK_PAGES * cache._page_size >= model.size_limit}
 
 
 def run_case(case):
@@ -97,7 +119,7 @@ def run_case(case):
 
     def fn(cache, model, op):
         r = at_limit(cache, model, op)
-        if r:
+        if r and r['maybe']:
             seen['at_limit'] += 1
         return r
 
